@@ -42,6 +42,9 @@ class Lin:
         f = Fraction(f)
         return Lin({k: v * f for k, v in self.t.items()}, self.c * f)
 
+    def __mul__(self, f):
+        return self.scale(f)
+
     def is_const(self):
         return not self.t
 
@@ -77,6 +80,8 @@ class Lin:
 def fmt_atom(a):
     try:
         from .sym import fmt
+        if isinstance(a, tuple) and a and a[0] == 'poff':
+            return 'offset(%s)' % fmt(a[1])
         return fmt(a)
     except Exception:
         return repr(a)
